@@ -384,7 +384,7 @@ end
 
 
 mutual
-/-- types whose order theorem is stated: no Map, no Union -/
+/-- types whose order theorem is stated: no Union -/
 def unionFree : Ty → Bool
   | .leaf _ => true
   | .null => true
@@ -393,7 +393,7 @@ def unionFree : Ty → Bool
   | .fsl _ t => unionFree t
   | .dict t => unionFree t
   | .ree t => unionFree t
-  | .map _ _ => false
+  | .map k v => unionFree k && unionFree v
   | .union _ _ => false
 def unionFreeAll : List Ty → Bool
   | [] => true
@@ -426,6 +426,13 @@ def cmpN : Ty → SortOptions → Val → Val → Ordering
   | .fsl _ _, _, _, _ => .eq
   | .dict t, o, a, b => cmpN t o a b
   | .ree t, o, a, b => swapIf o.descending (cmpN t (childOpts o) a b)
+  | .map k v, o, .list xs, .list ys =>
+    swapIf o.descending (lexCompare (fun x y =>
+      match x, y with
+      | .tuple [a, b], .tuple [a', b'] => (cmpN k (childOpts o) a a').then (cmpN v (childOpts o) b b')
+      | _, _ => .eq) xs ys)
+  | .map _ _, o, .list _, _ => nullOrd o false true
+  | .map _ _, o, _, .list _ => nullOrd o true false
   | .map _ _, _, _, _ => .eq
   | .union _ _, _, _, _ => .eq
 def cmpFieldsN : List Ty → SortOptions → List Val → List Val → Ordering
@@ -448,6 +455,23 @@ def conformsRow : List (Ty × SortOptions) → List Val → Bool
 /-- a row of arbitrary fields -/
 def encodeRowN : List (Ty × SortOptions) → List Val → List UInt8
   | (t, o) :: fs, v :: vs => encode o t v ++ encodeRowN fs vs
+  | _, _ => []
+
+/-! ### `Rows` ↔ `BinaryArray` (`try_into_binary`, `from_binary`) -/
+
+
+/-- the offsets buffer of `Rows` / of the `BinaryArray` made by `try_into_binary` -/
+def offsetsFrom (start : Nat) : List (List UInt8) → List Nat
+  | [] => [start]
+  | r :: rs => start :: offsetsFrom (start + r.length) rs
+
+/-- `Rows::try_into_binary`: the offsets and the concatenated row bytes -/
+def toBinary (rows : List (List UInt8)) : List Nat × List UInt8 := (offsetsFrom 0 rows, rows.flatten)
+
+/-- `RowConverter::from_binary` followed by `Rows::row(i)` for every `i`:
+`buffer[offsets[i]..offsets[i+1]]` -/
+def fromBinary : List Nat → List UInt8 → List (List UInt8)
+  | a :: b :: rest, buf => (buf.drop a).take (b - a) :: fromBinary (b :: rest) buf
   | _, _ => []
 
 end ArrowModel.C11
